@@ -136,6 +136,7 @@ def step (st : St) (toks : List String) : St × String :=
     ({ st with rq := r' },
       if st.rq.state = .new then "ok request"
       else match res with | .ok b => s!"ok {hx b}" | .error e => showErr e)
+  | ["rq", "gsub"] => (st, "ok")
   | ["rq", "gadd"] => (st, "done")
   | ["rq", "gcommit"] => (st, "done")
   | ["rs", "poll", m] =>
